@@ -4,6 +4,7 @@ from __future__ import annotations
 
 import json
 import os
+import re
 import shutil
 import subprocess
 import sys
@@ -59,10 +60,13 @@ def run(fn):
         return Outcome("hang")
     except BaseException as e:
         return classify_exception(e)
+import re
 for p in sorted(d.glob("*.xsh")):
     data = p.read_bytes()
-    f = run(lambda: XP.parse_file(p))
-    s = run(lambda: XP.parse_string(data.decode("utf-8-sig"), mode="exec"))  # (a UTF-8 signature is not part of the text)
+    m = re.search(r"\.v3(\d+)\.", p.name)  # 'f0001.v310.xsh': both entry points are given py_version=(3, 10)
+    kw = {"py_version": (3, int(m.group(1)))} if m else {}
+    f = run(lambda: XP.parse_file(p, **kw))
+    s = run(lambda: XP.parse_string(data.decode("utf-8-sig"), mode="exec", **kw))  # (a UTF-8 signature is not part of the text)
     fc, sc = f.canon(filename=False), s.canon(filename=False)
     out[p.name] = {"file": json.loads(json.dumps(fc, default=repr)), "string": json.loads(json.dumps(sc, default=repr))}
 json.dump(out, open(sys.argv[3], "w"))
@@ -105,6 +109,9 @@ def judge(rec, name, content: str, res, stream):
     multi = first["string"][0] == "error" and isinstance(first["string"][3], int) and isinstance(first["string"][5], int) and first["string"][5] > first["string"][3]
     nt = data_nonascii or "\r" in content or multi
     case = {"src": content, "stream": stream}
+    vm = re.search(r"\.v3\d+(?=\.)", name)
+    if vm:
+        case["v"] = vm.group(0)
     labels = [f"stream:{stream}", f"outcome:{first['string'][0]}"]
     if "\r\n" in content:
         labels.append("newline:crlf")
@@ -130,8 +137,9 @@ def check(rec, case):
     except UnicodeEncodeError:
         rec.exclude("not-encodable")
         return
-    res = run_children({"f0.xsh": data})
-    judge(rec, "f0.xsh", content, res, case.get("stream", "?"))
+    name = f"f0{case.get('v', '')}.xsh"
+    res = run_children({name: data})
+    judge(rec, name, content, res, case.get("stream", "?"))
 
 
 def newline_variant(rnd, src: str) -> str:
@@ -192,6 +200,14 @@ def search(rec, ctx):
                 i = rnd.randrange(len(src) + 1)
                 src = src[:i] + sep + src[i:]
             stream += "+separator-char"
+        if rnd.random() < 0.2:
+            # a row that holds nothing but blanks (indentation left behind on an empty line): it has one token at most,
+            # and that token is all the string side ever learns about the row
+            nls = [i for i, ch in enumerate(src) if ch == "\n"]
+            if nls:
+                i = rnd.choice(nls) + 1
+                src = src[:i] + rnd.choice(["    ", "\t", "  \t ", " ", "        ", "  \x0c"]) + "\n" + src[i:]
+                stream += "+blank-row"
         src = newline_variant(rnd, src)
         if "\x00" in src:
             return
@@ -211,12 +227,29 @@ def search(rec, ctx):
     for src in ctx.shard(["import \'\'\'\n\'\'\'\n", 'from """\n"""\nimport x\n', "def f(x, \'\'\'\n\'\'\'\n): pass\n", "import \'\'\'a\\\'\'\'\n\'\'\'\n", "x = 1\nimport f\'\'\'\n\'\'\'\ny = (2 3)\n",
                           "f(a, \\\n\\\n b) = 1\n", "v = rf\'\'\'{a + \\\n\\\n b =}\'\'\'\n", "g(1, \\\n   \\\n 2 3)\n"]):
         batch.append((src, "repeated-closing-line"))
+    # syntax that only a later Python has, parsed for an earlier one by both entry points: the report spans the whole
+    # statement, i.e. statement-level rows (blank rows with and without blanks, comment rows) that no other report covers
+    GATED = ["try:\n  a\nexcept* B:\n  c\n", "try:\n    a\n\n    b\nexcept* (B, C) as e:\n    # why\n    c\nelse:\n    d\nfinally:\n    e\n", "def f[T](a):\n  x = 1\n  return x\n", "class A[T]:\n  x = 1\n\n  def m(self):\n    pass\n",
+             "type X = (\n  int\n  | str\n)\n", "if c:\n  try:\n    a\n  except* B:\n    c\nz = 1\n", "async def g[**P]():\n  await h\n\n  return 1\n"]
+    grng = ctx.rng("gated")
+    gated = []
+    for _ in range(60 if ctx.thorough else 8):
+        src = grng.choice(GATED)
+        for _ in range(grng.randrange(0, 4)):
+            nls = [i for i, ch in enumerate(src) if ch == "\n"]
+            i = grng.choice(nls) + 1
+            src = src[:i] + grng.choice(["    ", "\t", "  ", " ", "", "  # c", "\x0c"]) + "\n" + src[i:]
+        if grng.random() < 0.3:
+            src = "k = 'é'\n" + src
+        src = newline_variant(grng, src)
+        gated.append((src, "version-gated-span", grng.choice([".v38", ".v310", ".v311", ".v312", ""])))
     # run the children on chunks
+    batch = [(src, stream, "") for src, stream in batch] + gated
     for a in range(0, len(batch), 150):
         chunk = batch[a : a + 150]
         # (every 16th file is saved with a UTF-8 signature, as some editors do)
-        files = {f"f{i:04d}.xsh": (b"\xef\xbb\xbf" if (a + i) % 16 == 5 else b"") + src.encode("utf-8") for i, (src, _) in enumerate(chunk)}
+        files = {f"f{i:04d}{v}.xsh": (b"\xef\xbb\xbf" if (a + i) % 16 == 5 else b"") + src.encode("utf-8") for i, (src, _, v) in enumerate(chunk)}
         res = run_children(files)
-        for i, (src, stream) in enumerate(chunk):
-            judge(rec, f"f{i:04d}.xsh", src, res, stream)
+        for i, (src, stream, v) in enumerate(chunk):
+            judge(rec, f"f{i:04d}{v}.xsh", src, res, stream + v)
         rec.notes["preferred_encodings"] = {e: res[e]["_encoding"] + ("/utf8-mode" if res[e]["_utf8_mode"] else "") for e in res}
